@@ -47,5 +47,9 @@ func (pad iso9797M2Padding) Unpad(src []byte) ([]byte, error) {
 	if !allZero {
 		return nil, errors.New("padding: inconsistent padding bytes")
 	}
+	if tail[padStart] != 0x80 {
+		// the last block holds no 0x80 marker at all (it is all zero)
+		return nil, errors.New("padding: inconsistent padding bytes")
+	}
 	return src[:srcLen-pad.BlockSize()+padStart], nil
 }
